@@ -284,6 +284,13 @@ func (k KeyRing) VerifyJSONs(ctx context.Context, requests []VerifyJSONRequest) 
 
 		// Hold the new keys and remove them from the request queue.
 		for req, res := range fetched {
+			if _, requested := keyRequests[req]; !requested {
+				if _, have := keysFetched[req]; have {
+					// Never let an answer nobody asked for replace a key
+					// that the database or an earlier fetcher supplied.
+					continue
+				}
+			}
 			keysFetched[req] = res
 			delete(keyRequests, req)
 		}
